@@ -31,6 +31,7 @@ type implQ struct {
 
 type Engine struct {
 	opts           Options
+	view           string // named view whose clauses are switched on (VerifyFuncView)
 	Prog           *ssa.Program
 	Pkgs           []*packages.Package
 	SSAPkgs        []*ssa.Package
@@ -176,6 +177,13 @@ func (e *Engine) clauseActive(c *Clause) bool {
 			continue
 		}
 		if t == "cut" {
+			continue
+		}
+		if strings.HasPrefix(t, "view:") {
+			// a clause of a named view takes part only in that view's pass
+			if e.view != strings.TrimPrefix(t, "view:") {
+				return false
+			}
 			continue
 		}
 		hasProp = true
@@ -700,6 +708,82 @@ func funcDisplayName(fn *ssa.Function) string {
 		return fn.Pkg.Pkg.Path() + "." + fn.RelString(fn.Pkg.Pkg)
 	}
 	return fn.String()
+}
+
+// viewsOf lists the named views of a function's contract that have a clause
+// active for the current property and tier. A view is a group of clauses
+// (invariants, assertions, postconditions tagged view:NAME) that is proved in a
+// pass of its own: the pass assumes the untagged clauses of the function (they
+// are proved in the main pass, without any view clause) and proves the view's
+// clauses. This keeps independent quantified arguments out of each other's
+// solver queries; it is the usual decomposition of a conjunctive invariant
+// (base inductive on its own, view inductive relative to the base).
+func (e *Engine) viewsOf(fn *ssa.Function) []string {
+	fc := e.funcC[fn]
+	if fc == nil {
+		return nil
+	}
+	seen := map[string]bool{}
+	var out []string
+	add := func(c *Clause) {
+		for _, t := range c.Tags {
+			if strings.HasPrefix(t, "view:") {
+				v := strings.TrimPrefix(t, "view:")
+				old := e.view
+				e.view = v
+				act := e.clauseActive(c)
+				e.view = old
+				if act && !seen[v] {
+					seen[v] = true
+					out = append(out, v)
+				}
+			}
+		}
+	}
+	for _, cs := range [][]*Clause{fc.Requires, fc.Ensures} {
+		for _, c := range cs {
+			add(c)
+		}
+	}
+	for _, l := range fc.Loops {
+		for _, c := range l.Invs {
+			add(c)
+		}
+	}
+	for _, cs := range fc.Callsites {
+		for _, c := range cs.Assert {
+			add(c)
+		}
+	}
+	sort.Strings(out)
+	return out
+}
+
+// VerifyFuncView runs the pass for one named view: same VC generation with the
+// view's clauses switched on; only the obligations that stem from the view's
+// clauses (and the reachability covers, as a vacuity guard for the view's
+// assumptions) are kept.
+func (e *Engine) VerifyFuncView(fn *ssa.Function, view string) *VC {
+	e.view = view
+	vc := e.VerifyFunc(fn)
+	e.view = ""
+	vc.name += "@" + view
+	var keep []*Obl
+	for _, o := range vc.obls {
+		inView := false
+		for _, t := range o.Tags {
+			if t == "view:"+view {
+				inView = true
+			}
+		}
+		if inView || o.Cover {
+			o.Name += "@" + view
+			keep = append(keep, o)
+		}
+	}
+	vc.obls = keep
+	vc.note("view " + view + ": proved in a pass of its own that assumes the function's untagged clauses")
+	return vc
 }
 
 func (e *Engine) VerifyFunc(fn *ssa.Function) (vc *VC) {
